@@ -106,6 +106,24 @@ Definition freeze (etag : str) (r : resp) : resp * bool :=
   let h2 := if hd_contains h1 ETAG then h1 else hd_set_str h1 ETAG etag in
   (with_body r h2 body (r_callbacks r), r_closable r).
 
+(* Response.stream: ResponseStream.write(value) is _ensure_sequence(mutable=True), response.append(value),
+   headers.pop(Content-Length); None = the RuntimeError of _ensure_sequence *)
+Definition stream_write (r : resp) (v : item) : option resp :=
+  match ensure_sequence r with
+  | None => None
+  | Some r' => Some (with_body r' (hd_del_key (r_headers r') CONTENT_LENGTH) (r_body r' ++ [v]) (r_callbacks r'))
+  end.
+(* what an application can do behind the back of the response: response.response.append(value) on a list body, and
+   headers[Content-Length] = text *)
+Definition raw_append (r : resp) (v : item) : resp :=
+  {| r_headers := r_headers r; r_code := r_code r; r_line := r_line r; r_body := r_body r ++ [v]; r_is_seq := r_is_seq r;
+     r_closable := r_closable r; r_passthrough := r_passthrough r; r_auto_cl := r_auto_cl r; r_autocorrect := r_autocorrect r;
+     r_callbacks := r_callbacks r |}.
+Definition set_length_header (r : resp) (text : str) : resp :=
+  {| r_headers := hd_set_str (r_headers r) CONTENT_LENGTH text; r_code := r_code r; r_line := r_line r; r_body := r_body r;
+     r_is_seq := r_is_seq r; r_closable := r_closable r; r_passthrough := r_passthrough r; r_auto_cl := r_auto_cl r;
+     r_autocorrect := r_autocorrect r; r_callbacks := r_callbacks r |}.
+
 (* ================================================================== get_wsgi_headers *)
 Definition LOCATION : str := [76; 111; 99; 97; 116; 105; 111; 110].
 Definition CONTENT_LOCATION : str := [67; 111; 110; 116; 101; 110; 116; 45; 76; 111; 99; 97; 116; 105; 111; 110].
